@@ -65,31 +65,20 @@ func tableConcat(L *LState) int {
 	sep := LString(L.OptString(2, ""))
 	i := L.OptInt(3, 1)
 	j := L.OptInt(4, tbl.Len())
-	if L.GetTop() == 3 {
-		if i > tbl.Len() || i < 1 {
-			L.Push(emptyLString)
-			return 1
-		}
-	}
-	i = intMax(intMin(i, tbl.Len()), 1)
-	j = intMin(intMin(j, tbl.Len()), tbl.Len())
-	if i > j {
-		L.Push(emptyLString)
-		return 1
-	}
-	//TODO should flushing?
-	retbottom := L.GetTop()
+	// the range is taken as given (an empty one yields ""); the result is assembled in a buffer, not on
+	// the value stack, whose size is limited
+	var buf []byte
 	for ; i <= j; i++ {
 		v := tbl.RawGetInt(i)
 		if !LVCanConvToString(v) {
 			L.RaiseError("invalid value (%s) at index %d in table for concat", v.Type().String(), i)
 		}
-		L.Push(v)
+		buf = append(buf, v.String()...)
 		if i != j {
-			L.Push(sep)
+			buf = append(buf, sep...)
 		}
 	}
-	L.Push(stringConcat(L, L.GetTop()-retbottom, L.reg.Top()-1))
+	L.Push(LString(string(buf)))
 	return 1
 }
 
